@@ -29,6 +29,10 @@ def concretise(hist, unit=1, rng=None, variety=True):
         elif op == 'resp':
             st = {"op": "resp", "req": i, "status": rng.choice([200, 200, 204, 404, 500]) if variety else 200, "es": es, "pad": -1,
                   "fields": rng.choice([[], [["x-r", "1"]], [["server", "verif"], ["x-long", "w" * 60]], [["set-cookie", "a=b"], ["set-cookie", "c=d"]]]) if variety else []}
+            if a == 2:   # informational response: 1xx, never ends the stream
+                st["status"] = rng.choice([100, 103, 103]) if variety else 103
+                st["fields"] = [["link", "</s.css>; rel=preload"]] if st["status"] == 103 else []
+                st["es"] = False
             if a == 1:   # malformed response
                 bad = rng.choice(['upper', 'nostatus', 'dupstatus', 'conn', 'cl', 'pseudo'])
                 if bad == 'upper':
@@ -235,6 +239,25 @@ def gen_c02_extra(ctx, thorough):
         steps += [{"op": "wu", "req": i, "inc": 300000} for i in (1, 2, 3, 0)]
         steps += [resp(i, es=True) for i in (1, 2, 3)]
         out.append({'tag': 'stream-share', 'cfg': {}, 'steps': steps})
+    # request header blocks that fill their last frame exactly (k * the server's MAX_FRAME_SIZE): measured, then requested
+    for mfs in (16384, 20000):
+        cfg = {'srvmfs': mfs} if mfs != 16384 else {}
+        probe = {'id': 1, 'tag': 'probe', 'cfg': cfg, 'steps': [call(1, fields=[["x-fill", "Z" * 30000]]), resp(1, es=True)]}
+        pf = os.path.join(ctx.scratch, 'cprobe%d.scen' % mfs)
+        vlib.write_ndjson(pf, [probe])
+        ctx.h2v(['cli', '--in', pf, '--out', pf + '.tr'])
+        b0 = 0
+        for ln in open(pf + '.tr.0'):
+            for e in json.loads(ln)['evs']:
+                if e['k'] == 'recv' and e['f']['ty'] in (1, 9) and e['f']['sid'] == 1:
+                    b0 += e['f']['len']
+        if b0 < 30000:
+            raise vlib.Inconclusive('could not measure the request header block (got %d)' % b0)
+        for k in (2, 3):
+            for d in (-1, 0, 1, 2):
+                L = 30000 + (k * mfs - b0) + d
+                steps = [call(1, fields=[["x-fill", "Z" * L]]), call(2, fields=[["x-after", "1"]]), resp(1, es=True), resp(2, es=True)]
+                out.append({'tag': 'reqblock-fills-frame', 'cfg': cfg, 'steps': steps})
     # connection-specific request fields must not reach the server, the rest must
     steps = [call(1, fields=[["connection", "keep-alive"], ["keep-alive", "timeout=5"], ["proxy-connection", "x"], ["upgrade", "h2c"], ["x_under", "1"], ["x-keep", "yes"]]), resp(1, es=True)]
     out.append({'tag': 'connspecific', 'cfg': {}, 'steps': steps})
@@ -285,7 +308,7 @@ def gen_c07_extra(ctx, thorough):
 
 def gen_c11_extra(ctx, thorough):
     rng = ctx.rng
-    out = []
+    out = gen_gate_goaway(ctx, thorough)
     # GOAWAY(last) at every position relative to three in-flight requests and their partial responses;
     # afterwards the server completes the streams at or below last in some order; new requests arrive
     for lastreq in (0, 1, 2, 3):
@@ -319,9 +342,28 @@ def gen_c11_extra(ctx, thorough):
     return out
 
 
+def gen_gate_goaway(ctx, thorough):
+    """Schedules that lock-step replay cannot produce by itself: the client's write loop is held in a blocking hook
+    between two of its steps (stream id allocated / request registered / body registered) while the read loop takes
+    a GOAWAY or a connection loss; then it is released.  The request must be failed at once (retryably if it was
+    never written) or go out and be answered - never be left on a stream nobody will answer."""
+    out = []
+    for gate in ('wr.afterid', 'wr.beforepending', 'wr.afterheaders'):
+        for body in (0, 3000):
+            if gate == 'wr.beforepending' and not body:
+                continue
+            for ev in ({"op": "goaway", "code": 0, "last": 0, "lastreq": 1}, {"op": "goaway", "code": 0, "last": 0}, {"op": "goaway", "code": 2, "last": 0, "lastreq": 1},
+                       {"op": "srvclose"}, {"op": "close"}, {"op": "rst", "req": 1, "code": 2}, {"op": "settings", "pairs": [[3, 1]]}):
+                c2 = call(2, n=body, kind='buf')
+                c2["gate"] = gate
+                steps = [call(1), c2, dict(ev), {"op": "ungate"}, resp(1, es=True), call(3)]
+                out.append({'tag': 'gate-goaway', 'cfg': {}, 'steps': steps})
+    return out
+
+
 def gen_c12_extra(ctx, thorough):
     rng = ctx.rng
-    out = []
+    out = gen_gate_goaway(ctx, thorough)
     base_srv = [resp(1, fields=[["x-a", "b"]], split=[3]), data(1, 30, es=False), resp(2, es=True), data(1, 10, es=True), {"op": "ping"},
                 {"op": "settings", "pairs": [[4, 70000]]}, resp(3), data(3, 5, es=True)]
     calls = [call(1), call(2, n=10), call(3, n=100, kind='stream')]
@@ -416,6 +458,13 @@ def gen_c18_extra(ctx, thorough):
         out.append({'tag': 'settings-seq', 'cfg': {}, 'steps': steps})
     for pairs in ([[2, 2]], [[5, 16383]], [[5, 1 << 24]], [[4, 1 << 31]]):
         out.append({'tag': 'settings-invalid', 'cfg': {}, 'steps': [call(1), {"op": "settings", "pairs": pairs}, call(2)]})
+    # ENABLE_PUSH = 0 is advertised: a PUSH_PROMISE ends the connection, whichever stream it names
+    pp = lambda **kw: dict({"op": "raw", "ty": 5, "fl": 4, "payload": [0, 0, 0, 2, 0x82]}, **kw)
+    out.append({'tag': 'push', 'cfg': {}, 'steps': [call(1), call(2), pp(req=1), call(3)]})                                   # a request is waiting on it
+    out.append({'tag': 'push', 'cfg': {}, 'steps': [call(1), resp(1, es=True), call(2), pp(req=1), call(3)]})                 # already answered
+    out.append({'tag': 'push', 'cfg': {}, 'steps': [call(1), call(2), {"op": "cancel", "req": 1}, pp(req=1), call(3)]})       # given up by its caller
+    out.append({'tag': 'push', 'cfg': {}, 'steps': [call(1), pp(sid=99), call(2)]})                                          # never opened
+    out.append({'tag': 'push', 'cfg': {}, 'steps': [call(1), resp(1, es=False), pp(req=1), data(1, 5), call(2)]})             # in the middle of a response
     # MAX_CONCURRENT_STREAMS
     for mcs in (1, 2):
         steps = [call(i) for i in range(1, 6)] + [resp(1, es=True), call(6), resp(6, es=True), resp(2, es=True)]
